@@ -41,6 +41,11 @@ def main():
                 interleavings.add(hash(run['sched']))
             files = {'main.lay': r['text'], 'stdout.txt': run['stdout'], 'stderr.txt': run['stderr']}
             info = {'stratum': r['stratum'], 'idx': r['idx'], 'cfg': run['cfg'], 'chans': net['chans']}
+            o = run['outcome']
+            if (o.startswith('signal') or o in ('panic', 'nostats', 'asan')) and 'fiber/mod.rs' not in run['detail']:
+                # not one of the scheduler assertion panics (those belong to C08): values in flight were damaged
+                chk.violation('crash while channel values were in flight: %s %s' % (o, run['detail'][:100]), files, info)
+                continue
             kinds = sorted(set(p[0] for p in run['problems']))
             if r.get('seed') == chancheck.FIXED_SEED and 'sync-sender-early' in kinds:
                 listed = known_nets.get(r['stratum'], {}).get(str(r['idx']))
